@@ -23,7 +23,14 @@ import (
 // was lost, is legitimately sent again. The server of this check acknowledges every event at once and the links have no latency, and emits are
 // kept 60 ms away from the instant the link is cut, so no packet is ever in that position: any duplicate is the queue's own doing.
 
-const c15CheckRetry = "c15-retry-queue"
+// Run with VERIF_AS=C16 the check reports under C16: ack functions and handlers that call back into the socket while the retry queue works
+// (an Emit that never returns is a mutex left held).
+var c15RetryProp, c15CheckRetry = func() (string, string) {
+	if envStr("VERIF_AS", "") == "C16" {
+		return "C16", "c16-retry-queue-reentrancy"
+	}
+	return "C15", "c15-retry-queue"
+}()
 
 type c15rEmit struct {
 	AtMs int    `json:"at_ms"` // -1: before Connect is called
@@ -58,7 +65,7 @@ func evalC15Retry(c c15rCase) (f *Failure, nontrivial bool) {
 	sort.SliceStable(c.Emits, func(i, k int) bool { return c.Emits[i].AtMs < c.Emits[k].AtMs }) // tokens are numbered in emission order
 	class := c.class()
 	fail := func(clause, detail string) *Failure {
-		return &Failure{Property: "C15", Check: c15CheckRetry, Clause: clause, Class: class, Detail: detail, Case: c}
+		return &Failure{Property: c15RetryProp, Check: c15CheckRetry, Clause: clause, Class: class, Detail: detail, Case: c}
 	}
 	journal(c15CheckRetry, class, c)
 	var res *Failure
@@ -290,11 +297,11 @@ func genC15Retry(t *rapid.T) c15rCase {
 func TestC15_RetryQueue(t *testing.T) {
 	setT(t)
 	defer startWatchdog(t, 90*1e9)()
-	ev := NewEv(t, "C15", c15CheckRetry, "virtual-time rig, a client socket with Retries 1..3 and AckTimeout {0.5, 1.5 s} (emits go through the retry queue), transports {websocket, polling}, CONNECT pending "+
+	ev := NewEv(t, c15RetryProp, c15CheckRetry, "virtual-time rig, a client socket with Retries 1..3 and AckTimeout {0.5, 1.5 s} (emits go through the retry queue), transports {websocket, polling}, CONNECT pending "+
 		"{0, 150, 400 ms}, optional outage of {0.3, 1, 2.5 s} (links cut, dials refused), 1..10 emits of kind plain / with ack function / volatile placed before Connect, while the first CONNECT is pending, "+
 		"online, offline and while the reconnecting CONNECT is pending; the server acknowledges every event at once; oracle: every queued event reaches the server exactly once and in emission order, "+
 		"its ack function runs once with the server's value, volatile events emitted offline never arrive; non-trivial = >= 2 queued emits made while the socket was not connected")
-	rapidGuard(t, "C15", c15CheckRetry)
+	rapidGuard(t, c15RetryProp, c15CheckRetry)
 	runRapid(t, c15CheckRetry, tierN(1500, 30000), func(t *rapid.T) {
 		c := genC15Retry(t)
 		f, nt := evalC15Retry(c)
